@@ -21,8 +21,9 @@ ASSUMPTIONS = [
     "A2: vsched's model of pthread_create/join is faithful; the new thread's first instruction is a scheduling point",
     "liveness of the callable is observed through a canary poisoned by its destructor and by overwriting the dead stack after start() "
     "returns (harness built with -O0 -fno-inline -fno-lifetime-dse so that start() has its own frame)",
-    "under the scheduler the new thread cannot run between pthread_create and the return of start() (no scheduling point there); "
-    "that order is the benign one",
+    "on the plain build the new thread cannot run between pthread_create and the return of start() (no scheduling point there); the "
+    "access-instrumented build makes every atomic operation a scheduling point, so those executions include the new thread running "
+    "and finishing inside start()",
 ]
 PC_S = {"init": "MARK", "spawn": "CREATE", "after": "MARK", "join": "JOIN", "done": "FIN"}
 PC_T = {"created": "START", "in": "MARK", "exited": "FIN"}
@@ -82,7 +83,11 @@ def check(pid, tier, seed):
     plines = []
     n_poll = {"quick": 60, "thorough": 1000}[tier]
     for i in range(n_poll):
-        plines += ["X poll%d mode=random kind=4 args=0 seed=%d" % (i, rnd.randrange(1, 2 ** 31)), "E"]
+        plines += ["X poll%d mode=random kind=4 args=0 ay=%d seed=%d" % (i, i % 2, rnd.randrange(1, 2 ** 31)), "E"]
+    # on this build every atomic operation can be made a scheduling point (ay=1): the new thread may then run, and even
+    # finish, while the starter is still inside start()
+    for i in range(n_poll * 2):
+        plines += ["X ay%d mode=random kind=%d args=%d ay=1 seed=%d" % (i, i % 4, (i // 4) % 3, rnd.randrange(1, 2 ** 31)), "E"]
     pres = common.run_harness(race_harness(), "\n".join(plines) + "\n")
     for xid, recs in pres.items():
         res[xid] = recs
